@@ -25,7 +25,8 @@ let opt_str = function A "-" -> None | a -> Some (str a)
 let request_of (req : t) (drv : t) : request =
   match req, drv with
   | L (A "req" :: m :: p :: depth :: ow :: _dest :: ctype :: im :: inm :: body :: _fail :: _pfb :: _cancel),
-    L [A "drv"; dk; dp; dim; dinm; pff; stamp; dirtag; bfails; L (A "mime" :: mt); sniffed; _wlimit] ->
+    (L [A "drv"; dk; dp; dim; dinm; pff; stamp; dirtag; bfails; L (A "mime" :: mt); sniffed; _wlimit]
+    | L [A "drv"; dk; dp; dim; dinm; pff; stamp; dirtag; bfails; L (A "mime" :: mt); sniffed; L (A "tags" :: _); _wlimit]) ->
     { meth = str m; rpath = str p; h_depth = str depth; h_overwrite = str ow;
       h_dest = (match dk with A "absent" -> DestAbsent | A "bad" -> DestBad | A "path" -> DestPath (str dp) | _ -> raise (Parse_error "dest"));
       h_ctype = str ctype; h_if_match = str im; h_if_none_match = str inm;
@@ -35,6 +36,25 @@ let request_of (req : t) (drv : t) : request =
       stamp = n_of_int (int_ stamp); dir_tag = str dirtag;
       mime_tab = List.map (function L [e; t] -> (str e, str t) | _ -> raise (Parse_error "mime")) mt; sniffed = str sniffed }
   | _ -> raise (Parse_error "req/drv")
+
+(* the entity tags LocalFileSystem.Stat reported: (resource name, tag) pairs, as model paths below the root *)
+let split_slash (s : char list) : char list list =
+  let rec go cur acc = function
+    | [] -> List.rev (List.rev cur :: acc)
+    | '/' :: r -> go [] (List.rev cur :: acc) r
+    | c :: r -> go (c :: cur) acc r in
+  List.filter (fun x -> x <> []) (go [] [] s)
+
+let tags_of (root : char list list) (drv : t) =
+  let conv = function
+    | L [h; t] -> (List.append root (split_slash (str h)), str t)
+    | _ -> raise (Parse_error "tag") in
+  match drv with
+  | L l ->
+    (match List.filter (function L (A "tags" :: _) -> true | _ -> false) l with
+     | [L [A "tags"; L (A "b" :: b); L (A "a" :: a)]] -> Some (List.map conv b, List.map conv a)
+     | _ -> None)
+  | _ -> None
 
 let entry_of = function
   | L [A "e"; href; d; clen; etag; lm; v; ct] ->
@@ -107,7 +127,13 @@ let () =
            | "c02" -> agrees_c02 root sb r o aft, spec_c02 sb o aft
            | "c03" -> agrees_c03 root sb r o aft, spec_c03 root sb r o aft
            | "c17" -> agrees_c17 root sb r o, spec_c17 o
-           | _ -> model_agrees root sb r o aft, spec_ok root sb r o aft in
+           | _ ->
+             (* the specification takes the announced tags from what Stat reported (it does not
+                prescribe what a tag looks like); the model agreement is exact *)
+             model_agrees root sb r o aft,
+             (match tags_of root drv with
+              | Some (tb, ta) -> bump "spec_with_reported_tags"; spec_ok_reported tb ta root sb r o aft
+              | None -> spec_ok root sb r o aft) in
          let (sb', resp) = serve root sb r in
          verdict ~agree ~spec ~kf:"-" ~detail:(Printf.sprintf "model: %s after=%s" (show_resp resp) (show_node sb')))
     | L [A "usteps"; L (A "dir" :: dir); tmp; name; L (A "chunks" :: chunks); fails; status] ::
